@@ -37,13 +37,15 @@ CHK = {
     "bashHash": (128, 40), "belsStdM": (16, 3), "belsShare": (5, 3, 16), "belsShare2": (5, 3, 16), "belsShare3": (5, 3, 16),
     "belsRecover2": (3, 16), "botpHOTPRand": (8, 32), "botpTOTPRand": (8, 32, 1000000),
     "bpkiPrivkeyWrap": (32, 8, 10000), "bpkiShareWrap": (33, 8, 10000),
+    "belsValM": (16,), "belsGenMid": (16, 11), "belsRecover": (3, 16), "bignKeyWrap": (32,),
 }
 # arguments that are sizes of buffers the harness supplies (a value beyond this bound may only be
 # passed when the call is going to be rejected)
 BUFMAX = 4096
 NOT_BUFFER = {("beltFMTEncr", 0), ("beltFMTDecr", 0), ("beltPBKDF2", 1), ("botpTOTPRand", 2), ("bpkiPrivkeyWrap", 2), ("bpkiShareWrap", 2)}
 BUFLIMIT = {("beltFMTEncr", 1): 600, ("beltFMTDecr", 1): 600, ("beltPBKDF2", 1): 2000, ("bpkiPrivkeyWrap", 2): 20000, ("bpkiShareWrap", 2): 20000,
-            ("bashHash", 0): 4096, ("belsShare", 0): 16, ("belsShare2", 0): 16, ("belsShare3", 0): 16, ("belsRecover2", 0): 16, ("belsStdM", 1): 16}
+            ("bashHash", 0): 4096, ("belsShare", 0): 16, ("belsShare2", 0): 16, ("belsShare3", 0): 16, ("belsRecover2", 0): 16, ("belsStdM", 1): 16,
+            ("belsRecover", 0): 16}
 
 
 def regen(ctx):
@@ -180,6 +182,18 @@ def oracle_chk(op, c_out, hdr):
 
 
 # ------------------------------------------------------------------ (b), (c) scenarios
+# committed: functions that leave partially written PUBLIC data in an output when they return an error
+# (by design: they parse / encode first and check afterwards); recorded as a statistic, not a violation.
+# For every other function an error return with data in an output buffer is a violation.
+OUTPUT_ON_ERROR = {
+    "btokCVCUnwrap": "*cvc is cleared and filled from the certificate body before signature, key and date checks",
+    "btokCVCVal2": "passes the caller's cvc to btokCVCUnwrap",
+    "btokCVCWrap": "the certificate body is encoded into cert[] before the signature is made",
+    "btokSMCmdWrap": "the unprotected encoding is written to apdu[] before the counter-parity check",
+    "btokSMRespWrap": "the unprotected encoding is written to apdu[] before the counter-parity check",
+}
+
+
 def judge_scen(d, failat):
     if "crash" in d:
         return ["crashed: " + str(d["crash"])[:200]]
@@ -194,7 +208,7 @@ def judge_scen(d, failat):
     if not failat:
         if d["code"] != d["exp"]:
             pr.append("returned %d where the header promises %d" % (d["code"], d["exp"]))
-        if d["code"] != 0 and d["out"] == 2:
+        if d["code"] != 0 and d["out"] == 2 and d["fn"] not in OUTPUT_ON_ERROR:
             pr.append("error %d returned but an output buffer holds data" % d["code"])
         if d["code"] != 0 and d["out"] == 1 and d["outdoc"] == 0:
             pr.append("error %d returned and an output buffer was modified (zeroised) although nothing should be written" % d["code"])
@@ -293,6 +307,7 @@ def run(ctx):
         fail2 += f2
         res2 += r2
         path_bad += pb
+    ctx.cov["error_exit_output_modified_by_design"] = sorted({d["fn"] for k, d in zip(fail2, res2) if not k and "crash" not in d and d["code"] != 0 and d["out"] == 2 and d["fn"] in OUTPUT_ON_ERROR})
     ctx.cov["alloc_failure_output_modified"] = sorted({d["fn"] for k, d in zip(fail2, res2) if k and "crash" not in d and d["failed"] and d["out"] != 0})
     ctx.cov.update({"ops_total": n_chk + len(ops2), "scenario_runs": len(ops2), "alloc_failure_runs": sum(1 for k in fail2 if k),
                     "auth_failure_runs": sum(1 for d in res2 if "crash" not in d and d["code"] in (511, 513)),
@@ -301,10 +316,21 @@ def run(ctx):
                     "contracts_proved_for": info.get("spec", {}).get("contracts", []),
                     "contracts_partial": info.get("spec", {}).get("partial", []),
                     "prose_expect_items_not_modelled": info.get("spec", {}).get("prose_items", 0),
+                    "prose_expect_items_as_named_predicates": info.get("spec", {}).get("prose_items_named", 0),
+                    "named_predicates_checked_after_the_cascade": len(info.get("spec", {}).get("named_items_after_cascade", [])),
+                    "order_theorems_for": info.get("spec", {}).get("order_theorems", []),
+                    "order_differs_from_header_listing": info.get("spec", {}).get("order_differs", []),
                     "verify_before_release": info.get("release", []),
                     "cascade_model_mismatches": len(mism), "skeleton_path_mismatches": len(path_bad)})
     ctx.samples.append({"theorem": "Bee2V.C09.allocFailSafe_sound",
                         "statement": "allocFailSafe c = true → ∀ tr s' r, Exec c St.init tr s' (.ret r) → NoNullUse tr ∧ ((∃ e ∈ tr, IsAllocFailure e) → r = .bad ∧ ClosesAll tr)"})
+    # documented classes that the code cannot produce at all (static refutation of the contract; the Lean side
+    # keeps them as proved `…_unproducible` counterexamples)
+    for fn, en in info.get("unproducible", []):
+        problems.append(("contract:%s:%s" % (fn, en), "class %s %s" % (fn, en),
+                         "the header of %s promises %s but neither the function nor a callee whose code it passes through ever "
+                         "returns that class" % (fn, en)))
+    ctx.cov["documented_classes_unproducible"] = ["%s:%s" % x for x in info.get("unproducible", [])]
     seen = set()
     for key, op, what in problems:
         if key in seen:
@@ -343,9 +369,45 @@ def run(ctx):
         distinct=len(exits) + len(classes))
 
 
+def c19_stream():
+    """op stream for property C19 (same ops in every build configuration): the argument sweep `chk` only.
+    harness/c09.c builds WITHOUT --wrap link flags when C09_WRAP is not defined (the interposers are then dead
+    code); the scenario ops need the interposers and are therefore not part of the stream."""
+    def fn(ctx, exe, w):
+        import x_cfg
+        fns, bad = x_cfg.translate_all()
+        if bad:
+            raise RuntimeError("C09 translator: " + "; ".join(bad)[:300])
+        info = {"fns": fns}
+        hdr = header_conds(info)
+        saved = ctx.tier
+        ctx.tier = "quick"
+        try:
+            ops = sweep_ops(ctx, info, hdr)
+        finally:
+            ctx.tier = saved
+        pred, perr, prc = ctx.run_lines(ctx.driver("drv_c09"), ops)
+        if prc != 0 or len(pred) != len(ops):
+            raise RuntimeError("drv_c09 failed: " + perr[-300:])
+        return [op for op, p in zip(ops, pred) if safe_to_run(op, p)]
+    return ("harness/c09.c", "drv_c09", fn, False)
+
+
 def replay(ctx, path):
     import x_c09obl
     ops = [l.strip() for l in open(path) if l.split() and l.split()[0] in ("scen", "chk")]
+    cls = [l.split()[1:3] for l in open(path) if l.split() and l.split()[0] == "class" and len(l.split()) == 3]
+    if cls:
+        import x_cfg, x_c09obl
+        fns, _ = x_cfg.translate_all()
+        x_c09obl.class_obl(fns)
+        bad = 0
+        for fn, en in cls:
+            still = (fn, en) in x_c09obl.UNPRODUCIBLE
+            print("class %s %s -> %s" % (fn, en, "still not producible by the code" if still else "producible"))
+            bad |= still
+        print("property C09 %s on the current tree for this input" % ("VIOLATED" if bad else "holds"))
+        return 1 if bad else 0
     if not ops:
         print("replay file names a theorem/correspondence, not an input: nothing to execute")
         return 0
